@@ -36,6 +36,10 @@ struct Case {
     /// the boundary a bounded backwards scan has to get right when it widens its window
     #[serde(default)]
     noise_boundary: Option<u8>,
+    /// another stream wrote this many KiB BEFORE the history starts, so that every crash image is
+    /// longer than the 64 KiB chunks of the torn-tail scan
+    #[serde(default)]
+    pre_noise_kb: u16,
 }
 
 fn weights() -> OpWeights {
@@ -64,8 +68,9 @@ fn case_strategy() -> BoxedStrategy<Case> {
         2u8..6,
         noise_strategy(),
         boundary_strategy(),
+        prop_oneof![7 => Just(0u16), 1 => 66u16..90],
     )
-        .prop_map(|(ops, cont, params, surface_stride, noise_kb, noise_boundary)| Case { ops, cont, params, surface_stride, noise_kb, noise_boundary })
+        .prop_map(|(ops, cont, params, surface_stride, noise_kb, noise_boundary, pre_noise_kb)| Case { ops, cont, params, surface_stride, noise_kb, noise_boundary, pre_noise_kb })
         .boxed()
 }
 
@@ -305,6 +310,13 @@ fn run(case: &Case, _known: &KnownFindings) -> CaseReport {
             r.nth_in_op += 1;
             r.snaps.push(snap);
         })));
+    }
+    // ---- a long log before the history starts (no crash points while it is written)
+    if case.pre_noise_kb > 0 {
+        rec.lock().unwrap().enabled = false;
+        append_noise_session(&it.live.log, case.pre_noise_kb, 9_999);
+        rec.lock().unwrap().enabled = true;
+        rep.class("log_longer_than_64KiB_before_the_history");
     }
     // ---- the workload, one actor
     let mut results: Vec<Result<Value, String>> = Vec::new();
